@@ -3,7 +3,9 @@
    small-step transition system of experimental/incremental (executor.go, task.go); a history is an
    arbitrary list of events: steps of arbitrary threads (any interleaving, any number of permits),
    starts of Runs (overlapping freely), Evicts and input Edits (exclusive).  C33 is about
-   deterministic queries that do not panic (hypothesis wpanic = None; panics are C34). *)
+   deterministic queries that do not panic (hypothesis wpanic = None; panics are C34).  A query that
+   returns a fatal error is not a panic: its result (Value and Fatal together) is one number oval, the
+   theorems hold for every result function wcomp. *)
 From Coq Require Import List Arith Bool NArith.
 From PV Require Import Model.IncExec Proofs.IncExec1 Proofs.IncExec2 Proofs.IncExec3 Proofs.IncExec4.
 Import ListNotations.
